@@ -27,7 +27,11 @@ def main():
     try:
         sc = Scratch()
         if a.replay:
-            rc = mod.replay(out, sc, a.replay)
+            from .props.common import replay
+            rc = replay(out, sc, a.replay)
+            if rc is None:          # no single-call replay for this kind of record: re-run the check
+                mod.run(out, sc, a.tier, seed)
+                rc = out.finish(**getattr(mod, "FINISH", {}))
         else:
             mod.run(out, sc, a.tier, seed)
             rc = out.finish(**getattr(mod, "FINISH", {}))
